@@ -26,10 +26,12 @@ structure Obs where
   rr      : Option Bool      -- Reload returned nil, if called
   api     : Option Bool      -- Plus API result, if consulted
   v       : Option Nat       -- version of the configuration built in this batch
+  fv      : Option Nat       -- version found in the generated config-version.conf handed to ReplaceFiles
   rv      : Option Nat       -- version passed to Reload
   hup     : Bool             -- simulator: HUP received during this batch
   chg     : Bool             -- simulator: children differ from pre-HUP content
   served  : Option Int       -- simulator: last version answered during this batch
+  run     : Bool             -- simulator: the workers run exactly the files now on disk
   st      : Bool             -- statuses were issued in this batch
   gw      : String           -- Programmed status of the Gateway in the issued status ("T","F","U","N" = absent)
   ls      : String           -- Programmed status per listener, one char each
@@ -45,7 +47,7 @@ def Obs.failed (o : Obs) : Bool :=
 def hasT (s : String) : Bool := s.toList.any (· == 'T')
 
 /-- walk the batches; `lastV` = highest version seen, `readyBefore`, `failedBefore`. -/
-def judgeHAux : List Obs → Option Nat → Bool → Bool → Option String
+def judgeHAux (plus : Bool) : List Obs → Option Nat → Bool → Bool → Option String
   | [], _, _, _ => none
   | o :: os, lastV, readyBefore, failedBefore =>
     if o.panic then some "handler_panicked"
@@ -53,10 +55,14 @@ def judgeHAux : List Obs → Option Nat → Bool → Bool → Option String
     else if o.ct != .noChange && o.v.isNone then some "no_version_for_applied_configuration"
     else if (match o.v, lastV with | some v, some l => decide (v ≤ l) | _, _ => false) then
       some "version_strictly_increasing"
+    else if o.fv.isSome && o.fv != o.v then some "generated_file_carries_version"
     else if o.rv.isSome && o.rv != o.v then some "reload_version_is_configuration_version"
     else if o.rr == some true &&
         !(o.hup && o.chg && o.served == o.rv.map Int.ofNat) then
       some "reload_ok_runs_version"
+    else if o.rr == some true && !o.run then some "reload_ok_runs_written_files"
+    else if o.ct != .noChange && !o.failed && (!plus || o.ct == .clusterState) && o.rr != some true then
+      some "success_without_reload"
     else if o.failed && !(o.st && o.gw != "T" && !hasT o.ls && !hasT o.rt) then
       some "failure_surfaces"
     else if o.failed && !readyBefore && o.ready then some "failure_keeps_unready"
@@ -65,9 +71,22 @@ def judgeHAux : List Obs → Option Nat → Bool → Bool → Option String
         !((o.ct != .noChange && !o.failed) || (o.ct == .noChange && !failedBefore)) then
       some "ready_only_after_success"
     else
-      judgeHAux os (match o.v with | some v => some v | none => lastV) o.ready
+      judgeHAux plus os (match o.v with | some v => some v | none => lastV) o.ready
         (failedBefore || o.failed)
 
-def judgeH (os : List Obs) : Option String := judgeHAux os none false false
+def judgeH (plus : Bool) (os : List Obs) : Option String := judgeHAux plus os none false false
+
+/-- Several controller processes one after the other against the same NGINX master (the NGF
+container restarted): every process must satisfy `judgeH` on its own; a failure of the
+"workers run the written files" clause in a later process is the version counter starting over. -/
+def judgeP (plus : Bool) : List (List Obs) → Nat → Option String
+  | [], _ => none
+  | seg :: segs, idx =>
+    match judgeH plus seg with
+    | some c =>
+      if idx > 0 && c == "reload_ok_runs_written_files" then
+        some "version_reuse_after_controller_restart"
+      else some c
+    | none => judgeP plus segs (idx + 1)
 
 end NGF.C12
